@@ -62,7 +62,8 @@ def ClosedAt (cfg : Cfg) (S : Nat → Name → Prop) : Prop :=
 
 /-- an environment invariant kept by everything done on behalf of a subject -/
 structure SubjInv (cfg : Cfg) (S : Nat → Name → Prop) (P : Env → Prop) : Prop where
-  apply : ∀ (fwd : Bool) (k : Nat) (d : Decl) (a : Act) (s : St), Canon cfg.db d → S k d.name → P s.env → P (a.apply fwd d.prod s).env
+  apply : ∀ (fwd : Bool) (k : Nat) (d : Decl) (a : Act) (s : St), Canon cfg.db d → a ∈ d.actions cfg.exact → S k d.name →
+    P s.env → P (a.apply fwd d.prod s).env
   record : ∀ (k : Nat) (d : Decl) (r : Option VroEnt) (s : St), Canon cfg.db d → S k d.name → P s.env → P (record d r s).env
   unrec : ∀ (k : Nat) (d : Decl) (e : Env), Canon cfg.db d → S k d.name → P e →
     P { e with dirs := aunset e.dirs d.name, recs := aunset e.recs d.name }
@@ -107,7 +108,7 @@ theorem acts_subj (cfg : Cfg) (S : Nat → Name → Prop) (P : Env → Prop) (hc
           · exact ih hl' ⟨s.env, s.aliases, s.unaliased, s1.already⟩ s' h1 hp h
     · have hnd : ∀ n o j v x, a ≠ .dep n o j v x := fun n o j v x e => hdep ⟨n, o, j, v, x, e⟩
       rw [acts_cons_nondep rec cfg fwd k noRec vro d a rest s hnd] at h
-      exact ih hl' _ s' (by simpa using ha) (hP.apply fwd k d a s hc hS hp) h
+      exact ih hl' _ s' (by simpa using ha) (hP.apply fwd k d a s hc (hl a (List.mem_cons_self)) hS hp) h
 
 theorem install_subj (cfg : Cfg) (S : Nat → Name → Prop) (P : Env → Prop) (hcl : ClosedAt cfg S)
     (hP : SubjInv cfg S P) (rec : Rec) (hal : AlOK cfg rec) (hrec : SubjSpec cfg S P rec) (k : Nat)
